@@ -72,6 +72,7 @@ def check(repo, tier="quick"):
     res.rule("C08.e", "the description program and the reader keep no state between streams and pass no same-named coordinates to the wrong parameters")
     res.rule("C08.d", "bounded blocks: BitstreamReader.read_bit consumes exactly the first n bits of an n-bit block and then yields the literal 1 without consuming, as pinned read_bitb does; bounded_block_end hands back max(0, remaining), which the serdes reads, as pinned flush_inputb does")
 
+    res.rule("C08.g", "the validator's side: no not-in-spec statement of a pinned validator function changes what is decoded -- none returns, breaks or continues, none reads from the stream, none stores into a state entry the pseudocode owns (entries without a leading underscore), apart from three reviewed substitutions of a commented-out pseudocode line; and the arithmetic in the validator's reach is exact-integer (C09.f re-evaluated), so values the deserialiser's consumer recomputes agree at any magnitude")
     res.rule("C08.f", "what dequantisation is keyed by: every use of the default quantisation matrix table (validator, encoder, test tooling) builds the key (wavelet_index, wavelet_index_ho, dwt_depth, dwt_depth_ho) from one dictionary, in that order; the per-picture '_state' entry the deserialiser records in transform_data / fragment_data (the documented way to lay coefficients out as the validator does) is a copy taken at that point, not the live dictionary that later data units overwrite")
     m = repo.mod(VC2)
     dm_funcs = {}
@@ -96,6 +97,8 @@ def check(repo, tier="quick"):
     rule_d(repo, res)
     rule_f(repo, res, m)
     res.floor("C08.f", 10)
+    rule_g(repo, res)
+    res.floor("C08.g", 20)
     from .. import lints, globals_state
 
     lints.rule(repo, res, "C08.e", ["bitstream.vc2", "bitstream.serdes", "bitstream.io"])
@@ -438,3 +441,60 @@ def rule_f(repo, res, m):
         calls = [c for c in ast.walk(fn) if isinstance(c, ast.Call) and dotted(c.func) == "serdes.computed_value" and c.args and const_str(c.args[0]) == "_state"]
         ok = len(calls) == 1 and len(calls[0].args) == 2 and norm(calls[0].args[1]) in [norm(ast.parse(f % st).body[0].value) for f in COPY_FORMS]
         res.check(ok, "C08.f", "%s:_state-is-a-snapshot" % fname, "%s:%s" % (m.rel, fname), "%s must record '_state' exactly once as a copy of the state (e.g. %s.copy()): the live dictionary is overwritten by every later data unit, so earlier pictures would be laid out with later pictures' parameters (found %s)" % (fname, st, [short(c.args[1], 40) for c in calls if len(c.args) > 1]), by="computed_value('_state', %s.copy())" % st)
+
+
+# not-in-spec statements of the validator that stand in for the commented-out pseudocode line right above them
+VALIDATOR_SUBSTITUTIONS = {
+    ("parse_info", "prefix = read_uint_lit(state, 4)"): "reads the 4 prefix bytes the pseudocode reads, keeping the value to check it",
+    ("quant_matrix", "state['quant_matrix'] = {}"): "a dict where the pseudocode allocates an array (same keys)",
+    ("slice_quantizers", "state['quantizer'] = {}"): "a dict where the pseudocode allocates an array (same keys)",
+}
+
+
+def rule_g(repo, res):
+    n_fn = 0
+    for name, m in sorted(repo.modules.items()):
+        if not name.startswith("vc2_conformance.decoder."):
+            continue
+        for fname, fn in sorted(m.funcs.items()):
+            if not repo.is_pinned_function(fn):
+                continue
+            stp = fn.args.args[0].arg if fn.args.args else "state"
+            bad = []
+            used = []
+            for n in ast.walk(fn):
+                if not hasattr(n, "lineno") or n.lineno not in m.free_lines:
+                    continue
+                what = None
+                if isinstance(n, (ast.Return, ast.Break, ast.Continue)):
+                    what = "%s at line %d" % (type(n).__name__.lower(), n.lineno)
+                elif isinstance(n, (ast.Assign, ast.AugAssign, ast.Delete)):
+                    for t in (n.targets if not isinstance(n, ast.AugAssign) else [n.target]):
+                        b, last = t, None
+                        while isinstance(b, ast.Subscript):
+                            last, b = b, b.value
+                        if last is not None and dotted(b) == stp:
+                            k = const_str(last.slice)
+                            if k is None or not k.startswith("_"):
+                                what = "store into %s[%s]" % (stp, repr(k) if k else short(last.slice, 20))
+                elif isinstance(n, ast.Call) and (dotted(n.func) or "").startswith(("read_", "flush_input", "byte_align")):
+                    what = "stream read %s()" % dotted(n.func)
+                if what is None:
+                    continue
+                stmt = n
+                while not isinstance(stmt, ast.stmt):
+                    stmt = stmt._parent
+                key = (fname, norm(stmt))
+                if key in VALIDATOR_SUBSTITUTIONS:
+                    used.append(key)
+                    continue
+                bad.append(what)
+            n_fn += 1
+            res.check(not bad, "C08.g", "validator-free-statements:%s" % fname, "%s:%s" % (m.rel, fname), "not-in-spec code of the validator's %s changes what is decoded (%s): the deserialiser follows the pseudocode, so the two then disagree on streams the validator accepts" % (fname, "; ".join(sorted(set(bad)))), by="checks and bookkeeping only%s" % ("; reviewed substitution: %s" % ", ".join(k[1] for k in used) if used else ""))
+    from . import c09
+    from ..report import Ob
+
+    sub = Result("C09")
+    c09.rule_f(repo, sub) if hasattr(c09, "rule_f") else None
+    for o in sub.obs:
+        res._add(Ob("C08.g", "%s/%s" % (o.rule, o.key), o.where, o.status, o.detail, o.by, o.path))
